@@ -948,8 +948,17 @@ func (x *Exec) execRange(f *Frame, ins ssa.Instruction) {
 		if _, ok := i.X.Type().Underlying().(*types.Map); !ok {
 			x.fail("range over string")
 		}
-		// iterator token: remember the map
-		f.regs[i] = Val{T: x.term(f, i.X)}
+		// iterator token: remember the map; nothing is visited yet; keep the set of keys present now
+		m := x.term(f, i.X)
+		f.regs[i] = Val{T: m}
+		mt := i.X.Type().Underlying().(*types.Map)
+		ks := x.tm.SortOf(mt.Key())
+		x.cur.heaps[x.visitedName(i)] = x.tm.ConstArray(ks, tFalse)
+		x.initHeap(x.visitedName(i), ArraySort(ks, SBool))
+		if x.rangeEntry == nil {
+			x.rangeEntry = map[*ssa.Range]Term{}
+		}
+		x.rangeEntry[i] = x.b.Def("range_entry_has", MapHas(x.mapSel(x.cur, mt, m)))
 	case *ssa.Next:
 		if i.IsString {
 			x.fail("range over string")
@@ -970,6 +979,10 @@ func (x *Exec) execRange(f *Frame, ins ssa.Instruction) {
 		x.assume(x.cur.reach, Implies(ok, x.typeFact(val, mt.Elem(), x.cur.Alloc(x))))
 		// exhaustion fact is quantified: kept as an instantiable hypothesis over key candidates
 		x.rangeExhausted(f, rng, ok, mv, vis, ks)
+		if x.rangeOfLoop == nil {
+			x.rangeOfLoop = map[*ssa.BasicBlock]*ssa.Range{}
+		}
+		x.rangeOfLoop[i.Block()] = rng
 		// mark visited
 		x.setVisited(f, rng, x.b.Def("vis", StoreT(vis, k, tTrue)))
 		f.regs[i] = Val{Tup: []Val{{T: ok}, {T: k}, {T: val}}}
@@ -994,7 +1007,11 @@ func (x *Exec) rangeExhausted(f *Frame, rng *ssa.Range, ok, mv, vis Term, ks Sor
 	// forall k :: !ok && has(k) ==> visited(k)   (instantiated at key candidates per obligation)
 	q := &Expr{Kind: EQuant, Name: "forall", Vars: []QVar{{Name: "k$", Type: "sort:" + string(ks)}},
 		Args: []*Expr{{Kind: ECall, Name: "$exhausted", Args: []*Expr{{Kind: EIdent, Name: "k$"}}}}}
-	env := x.newEnv(map[string]TV{"$ok": {ok, nil}, "$has": {MapHas(mv), nil}, "$vis": {vis, nil}}, x.cur.clone(), x.entry)
+	entryHas, okE := x.rangeEntry[rng]
+	if !okE {
+		entryHas = MapHas(mv)
+	}
+	env := x.newEnv(map[string]TV{"$ok": {ok, nil}, "$has": {MapHas(mv), nil}, "$vis": {vis, nil}, "$hasentry": {entryHas, nil}}, x.cur.clone(), x.entry)
 	x.addQhyp(x.cur, qhyp{mark: x.b.Mark(), guard: x.cur.reach, expr: q, env: env, src: "map range exhausted"})
 }
 
